@@ -60,6 +60,10 @@ func run(r *ev.Recorder, c *call) (key, msg, guard string) {
 		r.Pending(c)
 		defer r.Done()
 	}
+	// slices are handed over with spare capacity behind them (sentinel-filled): a callee that appends to or
+	// re-slices its arguments would write there
+	gMsg, okMsg := pu.Guard(c.Msg)
+	gSig, okSig := pu.Guard(c.Sig)
 	var resB bool
 	var resLen int
 	var pkX [67]byte
@@ -76,9 +80,9 @@ func run(r *ev.Recorder, c *call) (key, msg, guard string) {
 	o := ev.Try(func() {
 		switch c.Entry {
 		case "xmss.Verify":
-			resB = xmss.Verify(c.Msg, c.Sig, pkX)
+			resB = xmss.Verify(gMsg, gSig, pkX)
 		case "xmss.VerifyW":
-			resB = xmss.VerifyWithCustomWOTSParamW(c.Msg, c.Sig, pkX, c.W)
+			resB = xmss.VerifyWithCustomWOTSParamW(gMsg, gSig, pkX, c.W)
 		case "xmss.IsValidXMSSAddress":
 			resB = xmss.IsValidXMSSAddress(a20)
 		case "xmss.IsValidLegacyXMSSAddress":
@@ -90,9 +94,9 @@ func run(r *ev.Recorder, c *call) (key, msg, guard string) {
 			x := xmss.GetLegacyXMSSAddressFromPK(pkX)
 			resLen = len(x)
 		case "dilithium.Verify":
-			resB = dilithium.Verify(c.Msg, sigD, &pkD)
+			resB = dilithium.Verify(gMsg, sigD, &pkD)
 		case "dilithium.Open":
-			out := dilithium.Open(c.Sig, &pkD) // Sig holds the whole sealed message here
+			out := dilithium.Open(gSig, &pkD) // Sig holds the whole sealed message here
 			resLen = len(out)
 			if out != nil && len(c.Sig) >= dilithium.CryptoBytes && !bytes.Equal(out, c.Sig[dilithium.CryptoBytes:]) {
 				panic(fmt.Errorf("harness: Open returned bytes that are not the attached message"))
@@ -135,6 +139,9 @@ func run(r *ev.Recorder, c *call) (key, msg, guard string) {
 		}
 	} else {
 		guard = fmt.Sprintf("returned %v", resB)
+	}
+	if !okMsg() || !okSig() {
+		return c.Entry + "/input-modified", tag + ": the caller's slice (or the spare capacity behind it) was written to", guard
 	}
 	if !bytes.Equal(msg0, c.Msg) || !bytes.Equal(sig0, c.Sig) || !bytes.Equal(pk0, c.PK) || !bytes.Equal(addr0, c.Addr) || phrase0 != c.Phrase || pkD0 != pkD {
 		return c.Entry + "/input-modified", tag + ": an input buffer was modified by the call", guard
